@@ -13,14 +13,16 @@ PROPS = {
     "C30": {
         "level": "exploration",
         "technique": "runtime monitoring: exactly-once counters and start/end stamp order per node against a model of the graph, over generated build / clear / rebuild / move programs on all executors; plain, TSan and ASan builds",
-        "level_text": "Each case generates a random DAG (1-150 nodes quick, 300 thorough; 1-6 subgraphs; fan-in up to 12, hubs, duplicate edges, variadic dependsOn, BiProp edges on BiPropGraph) and a chain of steps (full evaluation, partial evaluation, no-op, Subgraph::clear + rebuild with cross-subgraph edges, node/subgraph additions, move construction/assignment, Graph::clear, clearSubgraphs), each followed by one of the five executor forms (single thread, parallel_for on TaskSet / ConcurrentTaskSet, ConcurrentTaskSetExecutor with wait and with wait=false + later wait) on pools of 0..9 threads with hook/futex perturbation and dwelling bodies. The set of incomplete nodes is read back (isCompleted) right before the executor is called; afterwards every such node must have run exactly once, after the end stamp of each of its predecessors that ran, no other node may have run, and every node must be complete. Held-on-what-was-run.",
-        "level_note": "Trusts the harness-side edge model (mirrors every dependsOn / clear) and the relaxed logical clock; dispenso has no hook point between Node::run() and the dependents' counter decrements, so that window is perturbed only through body dwell times and the pool's hook sites.",
+        "level_text": "Each case generates a random DAG (1-150 nodes quick, 300 thorough; 1-6 subgraphs; fan-in up to 12, hubs, duplicate edges, variadic dependsOn, BiProp edges on BiPropGraph) and a chain of steps (full evaluation, partial evaluation, no-op, Subgraph::clear + rebuild with cross-subgraph edges, node/subgraph additions, move construction/assignment, Graph::clear, clearSubgraphs), each followed by one of the five executor forms (single thread, parallel_for on TaskSet / ConcurrentTaskSet, ConcurrentTaskSetExecutor with wait and with wait=false + later wait) on pools of 0..9 threads with hook/futex perturbation and dwelling bodies. The set of incomplete nodes is read back (isCompleted) right before the executor is called; afterwards every such node must have run exactly once, after the end stamp of each of its predecessors that ran, no other node may have run, and every node must be complete. Throwing steps: a full evaluation on the case's persistent executor object in which 1-2 chosen node functors throw a tagged exception (judged: the call or the task set's wait() rethrows, no node twice, no complete node, every node that ran had all its incomplete predecessors run and finish, nothing in flight after the task sets were waited on), then setAllNodesIncomplete + a normal execution on the SAME executor object and another on a fresh one, both under the full oracle. Held-on-what-was-run.",
+        "level_note": "Task sets are replaced after a throwing execution (a task set that captured an exception stays cancelled by design). Trusts the harness-side edge model (mirrors every dependsOn / clear) and the relaxed logical clock; hook sites kGraphAfterNodeRun / kGraphBetweenDependents (ConcurrentTaskSetExecutor path) are perturbed with p=0.3 in a quarter of the cases; the other executors' windows only through body dwell times and the pool's hook sites.",
         "design_ref": "DESIGN.md §4 C30",
         "rule": "case = (graph type, DAG generator parameters, subgraph partition, step chain, executor, pool, task-set knobs, perturbation) drawn from the seeded generator; non-trivial = at least two node bodies ran and at least one dependency between two nodes that both ran had to be enforced; distinct by parameters + hash of the generated program",
         "required_classes": ["graph", "biprop", "exec:single", "exec:parfor-ts", "exec:parfor-cts", "exec:ctsx-wait", "exec:ctsx-nowait",
                              "pool0", "poolN", "concurrent-bodies", "dup-edges", "subgraphs",
                              "op:full", "op:partial", "op:noop", "op:clear-fp", "op:clear-setall", "clear-with-cross-edges",
-                             "op:add-fp", "op:move-ctor", "op:move-assign", "op:graph-clear", "op:subgraphs-clear"],
+                             "op:add-fp", "op:move-ctor", "op:move-assign", "op:graph-clear", "op:subgraphs-clear",
+                             "op:throw", "throwing-step", "executor-reused-after-throw", "throw-aborted-early",
+                             "throw:single", "throw:parfor-ts", "throw:parfor-cts", "throw:ctsx-wait", "throw:ctsx-nowait"],
         "assumptions": _A,
         "runs": {
             "quick": [{"config": "plain", "shards": 16, "args": {"n": 960}},
